@@ -136,6 +136,13 @@ Theorem C15_descs_format : forall q, wf_descs_code q = true ->
   QoSFlowDescs_MarshalBinary q = Ok (spec_descs q).
 Proof. exact descs_format. Qed.
 
+(* the value ranges of Table 9.11.4.13.1 (operation 1-6, direction 1-3, QFI < 64, 12-bit
+   VID, 4-bit PCP/DEI, no filters for operations 2 and 6, >= 1 for 3 and 5), for values
+   representable in the Go types, lie inside the domain of the theorems above *)
+Theorem C15_ts_ranges_in_domain : forall r,
+  ts_rule_ok r = true -> go_rule_ok r = true -> wf_rule r = true.
+Proof. exact ts_rule_in_domain. Qed.
+
 (* ---- serialising ---- *)
 
 (* QoSRules.MarshalBinary on any value of the modelled types ends with octets or an
@@ -224,3 +231,4 @@ Print Assumptions C15_descs_format.
 Print Assumptions C15_rules_marshal_total.
 Print Assumptions C15_descs_marshal_ok.
 Print Assumptions C15_rule_length_is_ignored.
+Print Assumptions C15_ts_ranges_in_domain.
